@@ -269,9 +269,16 @@ func genPrio(engine, prop string, r *simrt.SplitMix) *PrioSc {
 	case "C05":
 		sc.Class = "saturate"
 	case "C06":
-		sc.Class = pick(r, "normal", "normal", "single")
+		sc.Class = pick(r, "normal", "normal", "single", "sparse")
 	case "C07":
 		sc.Class = pick(r, "normal", "withhold", "withhold")
+		if engine == "prio1" && r.Intn(3) == 0 {
+			sc.Class = "dynamic"
+		}
+	case "C02":
+		if engine == "prio1" && r.Intn(3) == 0 {
+			sc.Class = "dynamic"
+		}
 	case "C15":
 		sc.Class = pick(r, "fault", "fault", "fault", "normal", "createfault")
 		if engine != "prio2" && sc.Class == "createfault" {
@@ -452,6 +459,36 @@ func genPrio(engine, prop string, r *simrt.SplitMix) *PrioSc {
 			}
 
 			sc.Ctl = append(sc.Ctl, PAction{WaitNs: ns, WaitSteps: steps, Kind: "graceful"})
+		}
+	case "sparse":
+		// exactly one priority ever has data, and it trickles in one item at a time while
+		// nothing is released: it must still come to hold all H handlers
+		gap := int64(pick(r, 1, 2, 3, 10, 40))
+
+		for i, p := range prios {
+			in := PInput{Prio: p, Cap: pick(r, 0, 0, 1, 4)}
+
+			if i == 0 {
+				n := h + between(r, 1, 4)
+				first := between(r, 0, min(n, in.Cap))
+				in.Prefill = first
+
+				for k := first; k < n; k++ {
+					in.Bursts = append(in.Bursts, Burst{Delay: gap, N: 1})
+				}
+			}
+
+			sc.Inputs = append(sc.Inputs, in)
+		}
+
+		manualHandlers()
+
+		sc.Ctl = append(sc.Ctl,
+			PAction{WaitNs: int64(h+6)*gap + int64(100+10*h), Kind: "mark", A: 0},
+			PAction{Kind: "autoall"}, PAction{Kind: "closeall"})
+
+		if v1 {
+			sc.Ctl = append(sc.Ctl, PAction{Kind: "graceful"})
 		}
 	case "saturate", "single":
 		rounds := between(r, 2, 6)
